@@ -157,4 +157,7 @@ def register(w):
     bounded("jax2onnx.plugins.jax.numpy.arange:ArangePlugin", "different_data_dependent_extents_do_not_share_one_dimension_name", "D38",
             "one program: two outputs jnp.arange(T*T) and jnp.arange(T*S), run with T=3, S=1",
             "the naming of data-dependent output dimensions is not under contract")
+    bounded("jax2onnx.plugins.jax.numpy.concatenate:JnpConcatenatePlugin.abstract_eval", "the_declared_extent_of_a_concatenation_along_a_symbolic_axis_holds_at_run_time", "D40",
+            "3 programs: concatenate along a symbolic axis (two operands, with a following reshape, along axis 1)",
+            "abstract evaluation of plugins is not under contract")
     return api
